@@ -340,6 +340,75 @@ Proof.
   exists m. now rewrite Hm.
 Qed.
 
+(** ** a plaintext that ends cleanly and reads without error is a whole number of blocks *)
+Definition framed_len (ps : list bytes) : nat := fold_right (fun pl a => (8 + length pl + a)%nat) 0%nat ps.
+
+Lemma plaintext_framed_len ps : length (plaintext ps) = framed_len ps.
+Proof.
+  induction ps as [|a t IH]; [reflexivity|].
+  rewrite plaintext_cons. unfold enc_block. rewrite !app_length, u64_length, IH.
+  change (framed_len (a :: t)) with (8 + length a + framed_len t)%nat. lia.
+Qed.
+
+Lemma read_blocks_eof_length f : forall p,
+  (length p < f)%nat -> snd (read_blocks f p true) = BEof ->
+  length p = framed_len (fst (fst (read_blocks f p true))).
+Proof.
+  induction f as [|f IH]; intros p Hf H; [lia|].
+  rewrite read_blocks_S in H |- *.
+  destruct (read_block p true) as [|st a|pl rest u] eqn:E.
+  - unfold read_block in E.
+    destruct (len p <? 8).
+    + destruct ((len p =? 0) && true) eqn:E2; [|discriminate].
+      cbn [fst framed_len fold_right]. unfold len in E2. lia.
+    + destruct (_ <? _); [discriminate|]. destruct (_ <? _); discriminate.
+  - cbn [snd] in H. unfold read_block in E.
+    destruct (len p <? 8).
+    + destruct ((len p =? 0) && true); [discriminate|]. injection E as <- _. discriminate.
+    + destruct (_ <? _); [injection E as <- _; discriminate|].
+      destruct (_ <? _); [injection E as <- _; discriminate | discriminate].
+  - pose proof (read_block_rest_shorter _ _ _ _ _ E) as L.
+    apply read_block_ok_inv in E as (h & Hh & -> & _).
+    specialize (IH rest ltac:(lia)).
+    destruct (read_blocks f rest true) as [[ps al] st]. cbn [fst snd] in *.
+    rewrite !app_length, (IH H).
+    change (framed_len (pl :: ps)) with (8 + length pl + framed_len ps)%nat. lia.
+Qed.
+
+Lemma prefix_same_length {A} (a b c : list A) :
+  prefix a c -> prefix b c -> length a = length b -> a = b.
+Proof.
+  intros [s ->] [t Ht] L. revert b Ht L.
+  induction a as [|x a IH]; intros [|y b] Ht L; try discriminate; [reflexivity|].
+  cbn [app] in Ht. injection Ht as <- Ht. f_equal. apply IH; [exact Ht | now injection L].
+Qed.
+
+Lemma prefix_is_firstn {A} (a b : list A) : prefix a b -> a = firstn (length a) b.
+Proof. intros [s ->]. now rewrite firstn_exact. Qed.
+
+Theorem clean_prefix_is_whole_blocks p s ps :
+  Forall (fun a => len a <= cache_dump_max_block_len) ps ->
+  p ++ s = plaintext ps ->
+  snd (read_blocks (S (length p)) p true) = BEof ->
+  exists k, fst (fst (read_blocks (S (length p)) p true)) = firstn k ps /\ p = plaintext (firstn k ps).
+Proof.
+  intros Hps Hp Heof.
+  pose proof (read_blocks_prefix (S (length p)) (S (length (p ++ s))) p s true true
+                (Nat.lt_succ_diag_r _) (Nat.lt_succ_diag_r _)) as Hpre.
+  rewrite Hp in Hpre.
+  rewrite (read_blocks_plain ps Hps) in Hpre
+    by (pose proof (plaintext_length ps); lia).
+  cbn [fst] in Hpre.
+  pose proof (read_blocks_eof_length (S (length p)) p (Nat.lt_succ_diag_r _) Heof) as HL.
+  set (got := fst (fst (read_blocks (S (length p)) p true))) in *.
+  exists (length got). split; [now apply prefix_is_firstn|].
+  rewrite <- (prefix_is_firstn _ _ Hpre).
+  apply (prefix_same_length _ _ (plaintext ps)).
+  - exists s. now rewrite Hp.
+  - destruct Hpre as [m ->]. exists (plaintext m). apply plaintext_app.
+  - now rewrite plaintext_framed_len.
+Qed.
+
 (** ** whole seconds *)
 Section Seconds.
   Ltac Zify.zify_post_hook ::= Z.div_mod_to_equations.
